@@ -38,6 +38,7 @@ pub fn blocks(thorough: bool) -> Vec<Block> {
         b.push(Block::new(Universe::new("U_pairs{e9,1f4a9,a}^<=4", &["\u{e9}", "\u{1f4a9}", "a"], 4, 2, false), thr(&[E, E | X], &[(1, 1)]), "r x {e, e+x}"));
         b.push(Block::new(Universe::new("U_abc2{a,b,c}", &["a", "b", "c"], 2, 0, true), thr(&bases_all, &[(1, 1)]), "r x 9 bases"));
         b.push(Block::new(u_prefix_counts(), thr(&[0], &[(1, 1), (2, 1)]), "r x {(1,1),(2,1)}"));
+        b.push(Block::new(u_corpus("U_large_rep", verif_seed() + 2, 1_500, &["a", "b"], (6, 14), (4, 12)), thr(&[0], &[(1, 1), (1, 2)]), "r x {(1,1),(1,2)} (large sets rich in repeats; corpus, see C02)"));
         b.push(Block::new(u_prefix_counts_unit(), thr(&[0, X], &[(1, 1), (1, 2)]), "r x {{}, x} x {(1,1),(1,2)}"));
         b.push(Block::new(Universe::new("U_adv(units)", &units, 4, 1, false), thr(&[0, E, W, X, E | X], &[(1, 1), (1, 2)]), "r x {{}, e, w, x, e+x} x {(1,1),(1,2)}"));
         b.push(Block::new(Universe::new("U_adv(A_esc)", A_ESC, 3, 1, false), thr(&[0, E], &[(1, 1)]), "r x {{}, e}"));
@@ -58,6 +59,10 @@ pub fn blocks(thorough: bool) -> Vec<Block> {
         b.push(Block::new(Universe::new("U_adv(A_esc)", A_ESC, 2, 2, false), thr(&[0, E], &[(1, 1)]), "r x {{}, e}"));
         b.push(Block::new(Universe::new("U_adv(A_esc)", A_ESC, 4, 1, false), thr(&[0, E], &[(1, 1), (2, 2)]), "r x {{}, e} x {(1,1),(2,2)}"));
         b.push(Block::new(Universe::new("U_a1-{a,1,-}", &["a", "1", "-"], 4, 3, false), thr(&[D | NW, W, D], &[(1, 1)]), "r x {d+W, w, d}"));
+        b.push(Block::new(u_prefix_counts(), thr(&[0, X, I], &grid22), "r x {{}, x, i} x 6 thresholds"));
+        b.push(Block::new(u_prefix_counts_unit(), thr(&[0, X], &grid22), "r x {{}, x} x 6 thresholds"));
+        b.push(Block::new(u_corpus("U_large_rep", verif_seed() + 2, 60_000, &["a", "b"], (6, 14), (4, 12)), thr(&[0], &[(1, 1), (1, 2), (2, 1)]), "r x 3 thresholds (corpus)"));
+        b.push(Block::new(u_corpus("U_large_rep3", verif_seed() + 3, 30_000, &["a", "b", "c"], (8, 16), (3, 8)), thr(&[0, W], &[(1, 1)]), "r x {{}, w} (corpus)"));
         b.push(Block::new(Universe::new("U_tok{\\d,1,\\,d}", &["\\d", "1", "\\", "d"], 4, 2, false), thr(&[D, D | W, NW, D | NS], &[(1, 1), (2, 1)]), "r x {d, d+w, W, d+S} x {(1,1),(2,1)}"));
     }
     b
